@@ -22,7 +22,27 @@ func (s *Sess) computeLoopMods() {
 
 // havocMods havocs the regions of a mod set on st; regions written only on freshly allocated
 // objects keep their old contents below oldTop (quantified frame axiom).
+// assumeFreeInvs assumes the function's free invariants in state st.
+func (s *Sess) assumeFreeInvs(st *State) {
+	if s.ct == nil || s.inlineDepth > 0 {
+		return
+	}
+	for _, c := range s.ct.FreeInvs {
+		if c.E == nil {
+			continue
+		}
+		ce := s.funcEnv(st, s.entry, nil)
+		f, err := ce.evalAssume(c.E)
+		if err != nil {
+			s.detached("free invariant %q: %v", c.Src, err)
+			continue
+		}
+		s.assumeAt(st, f)
+	}
+}
+
 func (s *Sess) havocMods(st *State, mod map[string]bool, oldTop string) {
+	defer s.assumeFreeInvs(st)
 	// the allocation counter moves first so that havoced regions are well-formed w.r.t. the new top
 	newTop := s.fresh("top", "Int")
 	s.assume(fmt.Sprintf("(<= %s %s)", st.top, newTop))
